@@ -235,8 +235,16 @@ def run_path_batch(ck, harness, model):
                 continue
             if atexit:
                 san = crashes.get(k, "")
+                rep = leaking or replay
+                if leaking is None and not ck.replay_path:
+                    ll, err = cc.find_leaking_lines(harness, hl)
+                    if ll and len(ll) <= 3:
+                        cl = next(x for x in cases if x["line"] == ll[0])
+                        rep = {"mode": "path", "api": cl["api"], "ext": cl["ext"], "line": cl["line"],
+                               "file_content": cl["data"].decode("latin1")[:600], "file_content_hex": cl["data"].hex()}
+                        san = err
                 ck.add_violation("path:leak", "LeakSanitizer reports leaked memory at exit after reading files by name",
-                                 dict(leaking or replay, sanitizer=san[-2500:]))
+                                 dict(rep, sanitizer=san[-2500:]))
             v = judge(mode, got)
             if v:
                 ck.add_violation("path:" + v[0], v[1], replay)
@@ -487,8 +495,16 @@ def run(ck):
         replay = {"mode": c["mode"], "line": c["line"], "impl": ho, "model": mo,
                   "input_text": cc.unhx(c["line"].split(" ")[2]).decode("latin1")[:400]}
         if atexit:
-            ck.add_violation("leak-or-error-at-exit", "the sanitizers report at process exit (leak) after the malformed stream",
-                             dict(replay, sanitizer=crashes.get(k, "")[-2000:]))
+            # LeakSanitizer speaks at exit: find the case(s) of this batch that leak
+            ll, err = cc.find_leaking_lines(harness, hl) if not ck.replay_path else (None, "")
+            if ll and len(ll) <= 3:
+                w0 = ll[0].split(" ")
+                ck.add_violation("%s:leak" % w0[0], "reading this input leaks memory (LeakSanitizer at exit)",
+                                 {"mode": w0[0], "line": ll[0], "lines": ll,
+                                  "input_text": cc.unhx(w0[2]).decode("latin1")[:400], "sanitizer": err[-2000:]})
+            else:
+                ck.add_violation("leak-or-error-at-exit", "the sanitizers report at process exit (leak) after the malformed stream",
+                                 dict(replay, sanitizer=crashes.get(k, "")[-2000:]))
         if got["kind"] == "CRASH":
             san = crashes.get(k, "")
             where = crash_site(san)
